@@ -27,6 +27,7 @@ import (
 )
 
 type Sys struct {
+	client *rpc2.Client // connection in whose name transactions are issued (nil: none)
 	DBS  *schemas.DB
 	Ref  *refmodel.Schema
 	DBM  model.DatabaseModel
@@ -401,7 +402,7 @@ func (s *Sys) TransactRaw(args []json.RawMessage) (res []ovsdb.OperationResult, 
 
 func (s *Sys) transactRaw(args []json.RawMessage) (res []ovsdb.OperationResult, rpcErr error) {
 	var reply []*ovsdb.OperationResult
-	if err := s.Srv.Transact(nil, args, &reply); err != nil {
+	if err := s.Srv.Transact(s.client, args, &reply); err != nil {
 		rpcErr = err
 	}
 	b, err := json.Marshal(reply)
@@ -424,6 +425,14 @@ func (s *Sys) transactRaw(args []json.RawMessage) (res []ovsdb.OperationResult, 
 }
 
 // TransactRef converts and sends abstract operations.
+// As returns a view of the system whose transactions are issued in the name of connection cl (the server keys some of its
+// state by connection).
+func (s *Sys) As(cl *rpc2.Client) *Sys {
+	c := *s
+	c.client = cl
+	return &c
+}
+
 func (s *Sys) TransactRef(ops []refmodel.Op) ([]ovsdb.OperationResult, error) {
 	o := make([]ovsdb.Operation, len(ops))
 	for i, op := range ops {
